@@ -359,3 +359,37 @@ def _norm_status(f):
     if f[0] in ("and", "or"):
         return (f[0], tuple(_norm_status(g) for g in f[1]))
     return f
+
+
+def rule_snapshot_order(check, rule="SNAPSHOT-ORDER"):
+    """A transform works on the node as it is when it is called and its result replaces the node: whatever
+    the instrumenting visitor does to a part of the *old* node after that call is thrown away (while its
+    status and count are kept)."""
+    from .trav import AdtGraph, Traversal
+
+    prog = check.prog
+    check.rule(rule, "in visit_mut_expr no part of the node is visited by the instrumenting visitor between the call of the transform that replaces the node and the replacement: instrumentation done there would be discarded with the old node although its status and propagation count were recorded")
+    f = opv_visit_mut_expr(prog)
+    tr = Traversal(prog, f, AdtGraph(prog.adts))
+    transforms = {"to_dd_binary_expr", "to_dd_assign_expr", "to_dd_tpl_expr", "to_dd_call_expr", "to_dd_cond_expr", "to_dd_arrow_expr"}
+    n_t = 0
+    bad = {}
+    own = {f.def_path} | {g.def_path for g in prog.user_fns if (g.rec.get("self_ty") or "").split("<")[0] == (f.rec.get("self_ty") or "").split("<")[0] and not g.rec.get("impl_of_trait")}
+    for p in tr.paths(f.body, tr.initial_env()):
+        if not Traversal.feasible(p):
+            continue
+        seen_t = None
+        for e in p.effects:
+            if e["kind"] == "call" and e["name"] in transforms and seen_t is None and e.get("in_fn") in own:
+                seen_t = e
+                n_t += 1
+                continue
+            if seen_t is not None and e["kind"] in ("with", "children") and e.get("ap") not in ((), None) and (e.get("vty") or "").endswith("OperationTransformVisitor") and e.get("mode", "mut") != "ref" and e.get("in_fn") in own:
+                arm = tr.variant_known(p, ())
+                arm = arm.split("::")[-1] if isinstance(arm, str) else "_"
+                bad[(arm, seen_t["name"])] = (e, seen_t)
+    for (arm, tname), (e, t) in sorted(bad.items()):
+        check.bad(rule, "%s/%s/%s" % (rule, arm, tname), hir.loc(e["node"]), "the %s arm visits %s with the instrumenting visitor after %s took its snapshot of the node: what is instrumented there is discarded when the result replaces the node, yet it is counted and makes the file Modified" % (arm, tr.ap_str(e["ap"]), tname))
+    if not bad:
+        check.ok(rule, rule + "/order", hir.loc(f.rec), "no instrumenting visit of a part of the old node after a transform call (%d transform calls on the paths)" % n_t)
+    check.floor(rule, "transform calls on the paths of visit_mut_expr", n_t, 5)
